@@ -19,11 +19,11 @@ def M(id, prop, kind, edits, rule=None):
 
 MUTANTS = [
     # ---------------- C07
-    M("c07-scale-not-transposed", "C07", "break", [(MM, "torch.matmul(activations, weights.t()) * output_scales.t()", "torch.matmul(activations, weights.t()) * output_scales")], "C07.R1"),
+    M("c07-scale-not-transposed", "C07", "break", [(MM, "torch.matmul(activations, weights.t()) * output_scales.flatten()", "torch.matmul(activations, weights.t()) * output_scales")], "C07.R1"),
     M("c07-weights-not-transposed", "C07", "break", [(MM, "torch.matmul(activations, weights.t())", "torch.matmul(activations, weights)")], "C07.R1"),
     M("c07-intmm-view", "C07", "break", [(MM, "out_data = torch._int_mm(activations.reshape(-1, in_features), weights)", "out_data = torch._int_mm(activations.reshape(-1, out_features), weights)")], "C07.R1"),
-    M("c07-intmm-scale", "C07", "break", [(MM, "out_data.to(torch.float32) * output_scales.t()", "out_data.to(torch.float32) * output_scales")], "C07.R1"),
-    M("c07-intmm-no-scale", "C07", "break", [(MM, "    fp32_output = out_data.to(torch.float32) * output_scales.t()\n", "    fp32_output = out_data.to(torch.float32)\n")], "C07.R2"),
+    M("c07-intmm-scale", "C07", "break", [(MM, "out_data.to(torch.float32) * output_scales.flatten()", "out_data.to(torch.float32) * output_scales")], "C07.R1"),
+    M("c07-intmm-no-scale", "C07", "break", [(MM, "    fp32_output = out_data.to(torch.float32) * output_scales.flatten()\n", "    fp32_output = out_data.to(torch.float32)\n")], "C07.R2"),
     M("c07-int8pack-output-shape", "C07", "break", [(MM, "        output_shape = activations.shape[:-1] + (out_features,)\n        out_data = torch._weight_int8pack_mm", "        output_shape = activations.shape[:-1] + (in_features,)\n        out_data = torch._weight_int8pack_mm")], "C07.R1"),
     M("c07-linear-drops-act-scale", "C07", "break", [(FUNC, "torch.ops.quanto.qbytes_mm(input._data, other._data, input._scale * other._scale)", "torch.ops.quanto.qbytes_mm(input._data, other._data, other._scale)")], "C07.R2"),
     M("c07-linear-double-scale", "C07", "break", [(FUNC, "output = torch.ops.quanto.qbytes_mm(input, other._data, other._scale)", "output = torch.ops.quanto.qbytes_mm(input, other._data, other._scale) * other._scale.t()")], "C07.R2"),
@@ -40,7 +40,7 @@ MUTANTS = [
     M("c07-default-no-promotion", "C07", "break", [(MM, "    if activations.dtype == torch.int8 or weights.dtype == torch.int8:\n        # If one of the terms is an int the matmul might overflow\n        mm_dtype = torch.float32\n", "")], "C07.R3"),
     M("c07-default-result-dtype", "C07", "break", [(MM, "    return outputs.to(output_scales.dtype)", "    return outputs")], "C07.R4"),
     M("c07-pertensor-pack-guard", "C07", "break", [(MM, "        # torch._weight_int8pack_mm expects one scale per output feature\n        and output_scales.numel() == weights.shape[0]\n", "")], "C07.R1"),
-    M("c07-refactor-matmul-operator", "C07", "refactor", [(MM, "    outputs = torch.matmul(activations, weights.t()) * output_scales.t()", "    outputs = (activations @ weights.t()) * output_scales.t()")]),
+    M("c07-refactor-matmul-operator", "C07", "refactor", [(MM, "    outputs = torch.matmul(activations, weights.t()) * output_scales.flatten()", "    outputs = (activations @ weights.t()) * output_scales.flatten()")]),
     M("c07-refactor-scale-var", "C07", "refactor", [(FUNC, "                output = torch.ops.quanto.qbytes_mm(input._data, other._data, input._scale * other._scale)", "                scales = input._scale * other._scale\n                output = torch.ops.quanto.qbytes_mm(input._data, other._data, scales)")]),
     M("c07-fix-float8-promotion", "C07", "refactor", [(MM, "    if activations.dtype == torch.int8 or weights.dtype == torch.int8:\n        # If one of the terms is an int the matmul might overflow\n        mm_dtype = torch.float32\n", "    mm_dtype = torch.float32\n")]),
     # ---------------- C08
